@@ -30,7 +30,6 @@ def setup(lang, dis_use=False, dis_contra=False, no_bounds=False, no_param_fn=Fa
         argv.append("--disable-parameterized-functions")
     sys.argv = argv
     sys.setrecursionlimit(20000)
-    threading.stack_size(512 * 1024 * 1024)
     import src.args as A   # noqa: F401  (parses argv, wires cfg, removes reserved words)
     from src import utils
     _STATE.update(lang=lang, utils=utils, args=A.args)
@@ -47,8 +46,10 @@ def in_big_stack(fn):
         except BaseException as e:  # noqa: BLE001
             box["e"] = e
             box["tb"] = traceback.format_exc()
+    threading.stack_size(512 * 1024 * 1024)
     t = threading.Thread(target=target)
     t.start()
+    threading.stack_size(0)      # later threads (the transformations' Timer threads) get the default stack again
     t.join()
     if "e" in box:
         raise box["e"]
